@@ -50,7 +50,33 @@ def body(run):
             s = json.loads(plines[0])
             s["bytes"] = s["bytes"][:60]
             samples.append(s)
+    # protocol messages: every proper prefix of every encoded message must be refused (the messages of C17's driver, at the
+    # representative revisions; TLC's Trace_Messages demands prefixAccepted = <<>> - only that part is this property's)
+    import concurrent.futures as cf
+    sys.path.insert(0, os.path.dirname(os.path.abspath(__file__)))
+    import c17
+    drv = V.go_build(PID, "drv")
+    wd = V.workdir(PID, "msg")
+    revs = ",".join(str(x) for x in c17.representatives())
+    jobs = [(i, os.path.join(wd, "t%02d.ndjson" % i)) for i in range(V.NCPU)]
+    with cf.ThreadPoolExecutor(max_workers=V.NCPU) as ex:
+        res = list(ex.map(lambda j: V.run_driver(drv, ["messages", "-out", j[1], "-revs", revs, "-per", "3" if T else "2", "-seed", str(run.seed + 5),
+                                                   "-shard", str(j[0]), "-nshard", str(V.NCPU)], timeout=2400), jobs))
+    mlines = []
+    for (i, out), (rc, so, se, wall) in zip(jobs, res):
+        if rc != 0:
+            raise V.Inconclusive("messages driver failed rc=%d: %s" % (rc, (se or so)[-3000:]))
+        mlines += V.read_ndjson(out)
+    vm = V.validate_traces(PID, "Trace_Messages", "Trace_Messages.cfg", mlines, lambda l: True, timeout=2400, name="tv-msg")
+    V.log("  messages: %d, %d accepted, %d rejected, validate %.1fs" % (vm.lines, vm.accepted_lines, len(vm.rejections), vm.wall))
+    # (a message rejected for another reason - its layout, a decode error - is C17's business, not a truncation accepted)
+    vm.rejections = [r for r in vm.rejections if r.get("line") and json.loads(r["line"]).get("prefixAccepted")]
+    run.add_trace_rejections(vm, lambda r: "msg:%s:prefix-accepted" % json.loads(r["line"])["kind"],
+                             lambda r: "a proper prefix of a message was accepted: %s at revision %s, prefixes of length %s" % (
+                                 json.loads(r["line"])["kind"], json.loads(r["line"]).get("rev"), json.loads(r["line"])["prefixAccepted"][:8]))
+    total["messages"] = len(mlines)
     run.coverage.update({
+        "messages": len(mlines),
         "evaluations": total["prefixes"], "distinct_nontrivial": total["prefixes"],
         "rule": "every proper prefix (cut position 0..len-1) of every encoded block, decoded typed, inferred and inside a compressed frame; all cuts are distinct inputs; an evaluation is non-trivial when the prefix is non-empty",
         "states": st["states"], "transitions": st["transitions"], "encodings": total["blocks"],
